@@ -55,6 +55,7 @@ func genC12(t *rapid.T) C12Case {
 	p.GlobalCM = true
 	p.GlobalKeys = c12GlobalKeys
 	params := ctlsim.Params{Shards: rapid.SampledFrom([]int{0, 0, 2, 3}).Draw(t, "shards"), ReloadQueue: chanceT(t, "reloadqueue", 30)}
+	params.EPSlices = chanceT(t, "epslices", 15)
 	h := genHistory(t, p, params, c12Kinds, sizeScale(4, 8), 3)
 	for i := range h.Split {
 		h.Split[i] = -1
